@@ -248,14 +248,15 @@ fn main() {
         // neighbourhoods of the points where the argument reduction / regime changes
         let pts: Vec<u32> = match u.name {
             "sin" | "cos" | "tan" => {
-                let kmax = if t { 250_000 } else { 20_000 };
+                let kmax = 250_000; // every multiple of pi/2 below 393216 (the reduction's round() has its ties at the odd ones)
                 let mut v = near((1..=kmax).map(|k| k as f64 * std::f64::consts::FRAC_PI_2), w);
                 v.extend(near((1..=4000).map(|k| k as f64 * std::f64::consts::FRAC_PI_4 / 8.0), 2));
                 v.extend(near([393216.0f64, 0.0].into_iter(), w.max(64)));
                 v
             }
             "exp" | "sinh" | "cosh" => {
-                let mut v = near((0..=160).map(|k| k as f64 * std::f64::consts::LN_2), w);
+                // multiples of ln 2 (reduced argument ~ 0) and of ln 2 / 2 (the odd ones are the ties of the reduction's round())
+                let mut v = near((0..=320).map(|k| k as f64 * std::f64::consts::LN_2 / 2.0), w);
                 v.extend(near((0..=110).map(|k| k as f64), w));
                 v.extend(near((0..=110).map(|k| k as f64 + 0.5), w));
                 v.extend(near([104.0, 88.0, 0.0].into_iter(), w.max(64)));
